@@ -663,7 +663,11 @@ def random_universe(rng) -> dict:
     areas = []
     for _ in range(rng.randrange(2, 6)):
         roll = rng.random()
-        if roll < 0.3:
+        if roll < 0.06 and any(a["kind"] == "sub" for a in areas):
+            # the same stretch reported a second time (another tool): same coordinates as an earlier subregion
+            twin = rng.choice([a for a in areas if a["kind"] == "sub"])
+            areas.append({"kind": "sub", "core": twin["core"], "extent": twin["extent"], "product": "sub", "pay": 1 - twin["pay"]})
+        elif roll < 0.3:
             ext = span(max(1, length // 3))
             areas.append({"kind": "sub", "core": ext, "extent": ext, "product": "sub", "pay": rng.choice([0, 0, 1])})
         elif roll < 0.37 and any(a["kind"] == "proto" for a in areas):
